@@ -702,6 +702,39 @@ def scalefactor(ctx, mod):
     ctx.check(rule, key, ok,
               'scale factor = sum over all replicas of the ensemble in the result of len(merged) / sum over the input\'s own replicas of len(merged)',
               'scale factor is sum(len(%s[n]) for n in %s if %s) / sum(len(%s[n]) for n in %s if %s)' % (Ln, srcn, fn_, Ld, srcd, fd_), mod.loc(ratio))
+    # applied exactly when the input lacks replicas of the ensemble: 0 < own < all (own == all gives factor 1, own == 0 must not divide)
+    gs = guards_of(mod, ratio, stop=f)
+    if len(gs) == 1 and gs[0][1]:
+        t = gs[0][0]
+        env_names = {}
+        for st in statements(f):
+            if isinstance(st, ast.Assign) and isinstance(st.targets[0], ast.Name) and isinstance(st.value, ast.ListComp):
+                src = unparse(st.value.generators[0].iter)
+                env_names[st.targets[0].id] = 'own' if src == own_obj + '.idl' else ('all' if src == 'new_idl_d' else None)
+
+        def ev(e, own, all_):
+            if isinstance(e, ast.BoolOp):
+                vals = [ev(v, own, all_) for v in e.values]
+                return all(vals) if isinstance(e.op, ast.And) else any(vals)
+            if isinstance(e, ast.Compare) and len(e.ops) == 1:
+                def val(x):
+                    if isinstance(x, ast.Call) and call_name(x) == 'len' and isinstance(x.args[0], ast.Name) and env_names.get(x.args[0].id):
+                        return own if env_names[x.args[0].id] == 'own' else all_
+                    if const(x) is not None:
+                        return const(x)
+                    raise Unrecognised(unparse(x))
+                a, b = val(e.left), val(e.comparators[0])
+                return {ast.Lt: a < b, ast.LtE: a <= b, ast.Gt: a > b, ast.GtE: a >= b, ast.Eq: a == b, ast.NotEq: a != b}[type(e.ops[0])]
+            raise Unrecognised(unparse(e))
+        try:
+            bad = [(o_, a_) for a_ in range(0, 5) for o_ in range(0, a_ + 1)
+                   if (0 < o_ < a_ and not ev(t, o_, a_)) or (o_ == 0 and ev(t, o_, a_))]
+            ctx.check(rule, key + '-condition', not bad, 'the factor is applied whenever the input has some but not all replicas of the ensemble, never for zero replicas',
+                      'condition `%s` is wrong for (own replicas, all replicas) = %s' % (unparse(t), bad[:4]), mod.loc(ratio))
+        except Unrecognised as e:
+            ctx.unrec(rule, key + '-condition', str(e), mod.loc(ratio))
+    else:
+        ctx.unrec(rule, key + '-condition', 'expected one enclosing condition', mod.loc(ratio))
     # stored under the ensemble name and only when replicas are missing
     tgt = ratio.targets[0]
     ok2 = isinstance(tgt, ast.Subscript) and unparse(tgt.slice) == 'mc_name'
@@ -946,6 +979,7 @@ SELFTEST = [
     ('expand-scatter-by-position', 'pyerrors/obs.py', "ret[idx[i] - new_idx[0]] = deltas[i]", "ret[idx[i] - idx[0]] = deltas[i]", 'C01-D5'),
     ('expand-wrong-object', 'pyerrors/obs.py', "_expand_deltas_for_merge(obs.deltas[name], obs.idl[name], obs.shape[name], new_idl_d[name]", "_expand_deltas_for_merge(obs.deltas[name], data.ravel()[0].idl[name], obs.shape[name], new_idl_d[name]", 'C01-D5'),
     ('scalefactor-own-lengths', 'pyerrors/obs.py', "/ sum([len(new_idl_d[name]) for name in mc_idl_d])", "/ sum([len(obs.idl[name]) for name in mc_idl_d])", 'C01-D6'),
+    ('scalefactor-condition', 'pyerrors/obs.py', "if len(mc_idl_d) > 0 and len(mc_idl_d) < len(new_mc_idl_d):", "if len(mc_idl_d) > 1 and len(mc_idl_d) < len(new_mc_idl_d):", 'C01-D6'),
     ('deriv-index-swapped', 'pyerrors/obs.py', "new_grad[name] = new_grad.get(name, 0) + deriv[i_val + j_obs] * obs.covobs[name].grad", "new_grad[name] = new_grad.get(name, 0) + deriv[j_obs + i_val] * obs.covobs[name].grad", 'C01-D7'),
     ('value-from-rvalues', 'pyerrors/obs.py', "tmp_values[i] = item.r_values.get(name, item.value)", "tmp_values[i] = item.r_values.get(name, 0.0)", 'C01-D7'),
     # behaviour preserving edits: must stay silent
